@@ -23,6 +23,7 @@ inductive Op
   | xpopBack (l : Nat)
   | xsplice (l oth : Nat)           -- unlink_and_move_all_nodes_from_other
   | xclear (l : Nat)                -- clear() / ~dlist_base()
+  | cmoveSorted (cmp : Nat → Nat → Bool) (fuel added head : Nat)  -- dlist_move_sorted (any comparator; fuel = loop bound)
 
 def exec (h : Heap) : Op → Heap
   | .cinit a => dlistInit h a
@@ -41,6 +42,7 @@ def exec (h : Heap) : Op → Heap
   | .xpopBack l => listPopBack h l
   | .xsplice l oth => listSplice h l oth
   | .xclear l => listClear h l 1000000
+  | .cmoveSorted cmp fuel added head => dlistMoveSorted h cmp fuel added head
 
 def run (h : Heap) (ops : List Op) : Heap := ops.foldl exec h
 
@@ -60,6 +62,11 @@ inductive AStep : Rings → Op → Rings → Prop
   -- initialisation / construction of a node that is in no ring
   | cinitFree {A a} : Free A a → AStep A (.cinit a) ([a] :: A)
   | xctorFree {A a} : Free A a → AStep A (.xctor a) ([a] :: A)
+  -- `dlist_init` of a node that is in a ring (alone, or a list head / an element): it is alone
+  -- afterwards; the ring it was in is ABANDONED (its other members are in no ring any more:
+  -- their links are stale).  `dlist_node()` constructed again at the address of an unlinked node.
+  | cinitRing {A a xs B} : Same A ((a :: xs) :: B) → AStep A (.cinit a) ([a] :: B)
+  | xctorLone {A a B} : Same A ([a] :: B) → AStep A (.xctor a) ([a] :: B)
   -- insertion after / before `head` of a node that is alone or in no ring
   | caddNext {A lnk head ys B} : Same A ([lnk] :: (head :: ys) :: B) →
       AStep A (.caddNext lnk head) ((head :: lnk :: ys) :: B)
@@ -111,11 +118,26 @@ inductive AStep : Rings → Op → Rings → Prop
       AStep A (.xsplice l oth) ([l] :: (x :: xs) :: [oth] :: B)
   | xspliceBothEmpty {A l oth B} : Same A ([l] :: [oth] :: B) →
       AStep A (.xsplice l oth) ([l] :: [oth] :: B)
+  -- splice of a list into itself (`l.unlink_and_move_all_nodes_from_other(l)`): the head leaves its ring
+  | xspliceSelf {A l x xs B} : Same A ((l :: x :: xs) :: B) → AStep A (.xsplice l l) ([l] :: (x :: xs) :: B)
+  | xspliceSelfEmpty {A l B} : Same A ([l] :: B) → AStep A (.xsplice l l) ([l] :: B)
   -- clear / destructor of a list: every element ends up alone (fewer than 10^6 elements)
   | xclear {A l xs B} : Same A ((l :: xs) :: B) → xs.length < 1000000 →
       AStep A (.xclear l) ([l] :: (xs.map fun x => [x]) ++ B)
   -- replace `instead` by the lone node `iter`
   | cinsertInstead {A iter instead ys B} : Same A ([iter] :: (instead :: ys) :: B) →
+      AStep A (.cinsertInstead iter instead) ([instead] :: (iter :: ys) :: B)
+  -- `dlist_move_sorted(added, head, member, cmp)` of a lone entry, ANY comparator: in front of the
+  -- first entry for which the comparator answers true, at the tail when there is none
+  | cmoveSorted {A cmp fuel added head xs B} : Same A ([added] :: (head :: xs) :: B) → xs.length + 1 < fuel →
+      AStep A (.cmoveSorted cmp fuel added head)
+        ((head :: (xs.takeWhile (fun y => !cmp added y) ++ added :: xs.dropWhile (fun y => !cmp added y))) :: B)
+  | cmoveSortedFree {A cmp fuel added head xs B} : Same A ((head :: xs) :: B) → Free ((head :: xs) :: B) added →
+      xs.length + 1 < fuel →
+      AStep A (.cmoveSorted cmp fuel added head)
+        ((head :: (xs.takeWhile (fun y => !cmp added y) ++ added :: xs.dropWhile (fun y => !cmp added y))) :: B)
+  -- `dlist_insert_instead(iter, instead)` with an `iter` that is in no ring (its fields are never read)
+  | cinsertInsteadFree {A iter instead ys B} : Same A ((instead :: ys) :: B) → Free ((instead :: ys) :: B) iter →
       AStep A (.cinsertInstead iter instead) ([instead] :: (iter :: ys) :: B)
 
 end Igris.C01
